@@ -291,9 +291,13 @@ def c09_configurator_purity(tier, seed):
         "plog.from_json(Xor)": lambda: (lambda m: [type(m).__module__, type(m).__name__, m.to_text()])(pg.from_json(json.loads(json.dumps(xor_doc)))),
         "StingyConfigurator.from_json": lambda: (lambda m: [type(m).__name__, m.to_text(), sorted((str(a), int(b)) for a, b in m.default_prios.items())])(
             cc.StingyConfigurator.from_json(json.loads(json.dumps(cfg_doc)))),
+        "cc.Any around a caller-owned sub-proposition": lambda: (lambda r_: [r_.to_text(), getattr(_shared_sub, "prio", None),
+                                                                             sorted((str(a), int(b)) for a, b in cc.StingyConfigurator(r_, id="sh").default_prios.items())])(
+            cc.Any("e2", _shared_sub, default=["e2"], variable="w")),
         "plog.Any(...)": lambda: pg.Any("p", "q", variable="Z").to_text(),
         "cc.Any(..., default)": lambda: cc.Any("p", "q", "r", default=["r"], variable="Z").to_text(),
     }
+    _shared_sub = pg.All("p", "q", variable="S")           # one object, used by the probe every time
     at_start = {k_: _probe(f) for k_, f in probes.items()}
     calls = calls + ["from_json", "plog_from_json"]
     _do = do
